@@ -258,10 +258,10 @@ impl Snapshotter {
 //@FORLOOP 1 it shim_ix_identity shim_ix_next
 // R18: `X.into()` where the target type is fixed by the callee -> `T::from(X)` (Into is the blanket impl over From)
 //@REWRITE R18 re:DebugValue::Gauge\(value\.into\(\)\) ==> DebugValue::Gauge(OrderedFloat::from(value))
-//@REWRITE R18 re:ck\.key\(\)\.name\(\)\.to_string\(\)\.into\(\) ==> KeyName::from(ck.key().name().to_string())
+//@REWRITE R18 re:(\w+)\.key\(\)\.name\(\)\.to_string\(\)\.into\(\) ==> KeyName::from(\1.key().name().to_string())
 //@REWRITE R17 re:h\.clear_with\(\|xs\| values\.extend\(xs\.iter\(\)\.map\(\|f\| OrderedFloat::from\(\*f\)\)\)\); ==> shim_clear_extend(h, &mut values);
 //@REWRITE SPEC-closure re:\.map\(\|c\| DebugValue::Counter\(c\.load\(Ordering::SeqCst\)\)\) ==> .map(|c: &Arc<AtomicCell>| -> (v: DebugValue) ensures v == DebugValue::Counter(c.now()) { DebugValue::Counter(c.load(Ordering::SeqCst)) })
-//@REWRITE R13 re:\.map\(\|\(u, d\)\| \(u\.to_owned\(\), Some\(d\.to_owned\(\)\)\)\) ==> .map(|ud| (ud.0.to_owned(), Some(ud.1.to_owned())))
+//@REWRITE R13? re:\.map\(\|\(u, d\)\| \(u\.to_owned\(\), Some\(d\.to_owned\(\)\)\)\) ==> .map(|ud| (ud.0.to_owned(), Some(ud.1.to_owned())))
 //@SPEC
     requires obeys_key_model::<Key>(),
 //@AFTER 1 let metadata = self.inner.metadata.lock()
